@@ -36,7 +36,9 @@ pub fn gen_version(rng: &mut Rng) -> [u8; 3] {
             let g = *rng.pick(L::GATES);
             if rng.chance(1, 3) {
                 // immediate predecessor
-                if g.1 > 0 {
+                if g == (0, 1) {
+                    g
+                } else if g.1 > 0 {
                     (g.0, g.1 - 1)
                 } else if g.0 > 0 {
                     (g.0 - 1, 255)
